@@ -195,6 +195,26 @@ func (e *Env) Monitor(st *Step) {
 	}
 	st.Unhealthy = e.Mon.Unhealthy
 
+	// ---- C17 end-of-block totality ----------------------------------------------------------------------------
+	// a failed end-of-block halts the chain: the partial state it leaves is judged by C17 only
+	if kind == "endblock" && !ok {
+		cls := "endblock_failed"
+		switch {
+		case strings.Contains(st.Res, "int_div_zero"):
+			cls = "zero_claim_interval" // D9
+		case strings.Contains(st.Res, "div_zero"):
+			cls = "zero_staked_weight" // D10
+		case strings.Contains(st.Res, "power_overflow"):
+			cls = "power_overflow" // minted stake pushes a validator's consensus power beyond int64
+		case strings.Contains(st.Res, "overflow"):
+			cls = "weight_overflow"
+		case strings.Contains(st.Res, "invalid_ex_rate"):
+			cls = "zero_token_validator"
+		}
+		st.fail("C17", cls, "EndBlocker returned %s", st.Res)
+		return
+	}
+
 	if kind == "reimport" {
 		e.monitorReimport(st)
 	}
@@ -463,6 +483,13 @@ func (e *Env) Monitor(st *Step) {
 					cls = "pool_short" // D6 inside the hook
 				} else if strings.Contains(st.Res, "div_zero") {
 					cls = "zero_token_destination" // D8: a pending redelegation points at a validator slashed to zero tokens
+				} else if strings.Contains(st.Res, "no_validator") {
+					// the slashed validator exists: a pending redelegation out of it points at a validator x/staking has removed
+					for _, ri := range pre.RI {
+						if ri.Src == atoi(f[1]) && pre.SVal(ri.Dst) == nil {
+							cls = "destination_validator_removed"
+						}
+					}
 				}
 				st.fail("C08", cls, "slash callback returned %s", st.Res)
 			} else if !post.Flag {
@@ -497,22 +524,6 @@ func (e *Env) Monitor(st *Step) {
 		if pre.String() != post.String() {
 			st.fail("C16", "rejected_not_noop", "a rejected %s changed state", kind)
 		}
-	}
-
-	// ---- C17 end-of-block totality ----------------------------------------------------------------------------
-	if kind == "endblock" && !ok {
-		cls := "endblock_failed"
-		switch {
-		case strings.Contains(st.Res, "int_div_zero"):
-			cls = "zero_claim_interval" // D9
-		case strings.Contains(st.Res, "div_zero"):
-			cls = "zero_staked_weight" // D10
-		case strings.Contains(st.Res, "overflow"):
-			cls = "weight_overflow"
-		case strings.Contains(st.Res, "invalid_ex_rate"):
-			cls = "zero_token_validator"
-		}
-		st.fail("C17", cls, "EndBlocker returned %s", st.Res)
 	}
 
 	// ---- C15 redelegation -------------------------------------------------------------------------------------
